@@ -42,8 +42,9 @@ def _wid():
 class FailPlan:
     """Items (global item codes) whose production raises; shared by all dataset kinds."""
 
-    def __init__(self, fail_items=()):
+    def __init__(self, fail_items=(), state_fail=()):
         self.fail_items = set(fail_items)
+        self.state_fail = set(state_fail)  # positions at which state_dict() raises
 
     def check(self, code):
         if code in self.fail_items:
@@ -200,6 +201,8 @@ class _StatefulIt:
         return 1000 * self.w + idx
 
     def state_dict(self):
+        if (1000 * self.w + self.i) in self.ds.fail.state_fail:
+            raise ValueError(f"planned state_dict failure at position {self.i} of shard {self.w}")
         return {"i": self.i, "nested": {"half": self.i // 2} if self.i % 3 else {}}
 
     def load_state_dict(self, sd):
@@ -209,9 +212,9 @@ class _StatefulIt:
 class IterItState(tud.IterableDataset):
     """Only the iterator returned by __iter__ is stateful."""
 
-    def __init__(self, sizes, fail=()):
+    def __init__(self, sizes, fail=(), state_fail=()):
         self.sizes = list(sizes)
-        self.fail = FailPlan(fail)
+        self.fail = FailPlan(fail, state_fail)
 
     def __iter__(self):
         return _StatefulIt(self, _wid()[0])
@@ -365,7 +368,7 @@ def make_dataset(cfg):
     if k == "iter_inplace":
         return IterDsState(sizes, fail, inplace=True)
     if k == "iter_it_state":
-        return IterItState(sizes, fail)
+        return IterItState(sizes, fail, cfg.get("state_fail", ()))
     if k == "iter_selfiter":
         return IterSelfIter(sizes, fail)
     if k == "iter_ds_eager":
